@@ -30,6 +30,7 @@ PARTS = [
     M('\\frac{x}{y}_1^{2}', ('e', 'x')), M('/ m:', ('o', '/'), ('e', 'm'), ('p', ':')), M('+', ('o', '+')),
     M('n,\\quad\\quad', ('e', 'n'), ('p', ','), ('s', ' '), ('s', ' ')), M('o.\\ \\ \\label{x}', ('e', 'o'), ('p', '.'), ('s', ' '), ('s', ' ')),
     M('\\ge p', ('o', '\\ge'), ('e', 'p')),
+    ('text', '\\mbox{ }', ' '), ('text', '\\text{  }', '  '),
 ]
 # a document may redefine an operator macro (common preamble line); the scheme must not change
 PREAMBLES = ['', '\\renewcommand{\\le}{\\leqslant}\\renewcommand{\\ge}{\\geqslant}\n']
@@ -151,7 +152,10 @@ class Builder:
                     if pi:
                         self.s += ' '
                     part = PARTS[p]
-                    if part[0] == 'text':
+                    if part[0] == 'text' and '%s' not in part[1]:
+                        self.s += part[1]
+                        isec.append(('text', None, part[2]))
+                    elif part[0] == 'text':
                         pre, post = part[1].split('%s')
                         self.s += pre
                         w = self.word()
@@ -208,6 +212,9 @@ class C11:
         for s1 in sa:
             yield [[[s1]], 0, 'de', True, 0]
             yield [[[s1]], 2, 'ru', False, 0]
+            yield [[[s1]], 2, 'en', True, 0]
+            yield [[[s1]], 3, 'ru', True, 0]
+            yield [[[s1, [0]]], 2, 'de', True, 0]
             yield [[[[0], s1]], 0, 'en', False, 0, 1]
         combos = (('en', False), ('de', True), ('ru', False)) if tier == 'quick' else (('en', False), ('de', True), ('ru', False), ('en', True), ('de', False))
         for s1 in ss:
@@ -282,7 +289,7 @@ class C11:
             if re.search(r'[\\_^{}&$]|\b[a-px-y]\b', plain):
                 viol.append({'clause': 'no maths source appears', 'sig': 'C11:leak:' + tag, 'detail': det})
         nparts = sum(len(sec) for row in rows for sec in row)
-        nt = nparts > 1 or any(PARTS[p][0] == 'text' or len(PARTS[p][2]) > 1 for row in rows for sec in row for p in sec)
+        nt = nparts > 1 or any(PARTS[p][0] == 'text' or len(PARTS[p][2]) > 1 for row in rows for sec in row for p in sec) or simple
         return {'viol': viol[:2], 'out': plain, 'nt': nt, 'tr': 1}
 
     def explain(self, case):
